@@ -249,6 +249,8 @@ def check_dgram(f, res, own, cur, prev, now, store, over, table):
         if m and (m.group(3), m.group(4), m.group(5)) != ("~", "~", "~"):
             bad.append(("reply-body", "announce_peer reply carries a body"))
         return bad
+    if e and q == b"get_peers":
+        bad += store.check(ihv, [], int(f[2]))                # "nothing to return" although peers are stored?
     if e:
         # the only legitimate error for a well-formed query: nothing to return (201)
         if not (e.group(2) == "201" and q in (b"find_node", b"get_peers")):
@@ -400,8 +402,8 @@ def oracle(case, line):
                 vals = [bytes.fromhex(x.lstrip("?")) for x in m.group(1).split(",")]
                 if "?" in m.group(1):
                     bad.append(("values-shape", "value entry is not a 6-byte string"))
-            if res.startswith("t="):
-                bad += store.check(ih, vals, int(f[3]))       # also when no values came back: stored peers must not be lost
+            # also when no values came back (nodes, or the "nothing to return" error): stored peers must not be lost
+            bad += store.check(ih, vals, int(f[3]))
             nm = re.search(r" n=([0-9a-f]+)", res)
             if nm:
                 bad += check_nodes(bytes.fromhex(nm.group(1)), last if prevk == "D" else None, ih)
@@ -476,6 +478,14 @@ def run(rep, tier, seed, replay):
                        "(dht_search.cc, dht_announce.cc), find_node / get_peers / announce_peer transactions, the 15 s reply queue age limit and the "
                        "1024-packet reply queue cap (the harness flushes after every datagram); effects of search traffic reach the router only as "
                        "explicit Q/R/I ops",
+                       "outgoing search: dht::DhtSearch (contact set ordered by XOR distance, concurrency limit, trim to 18) is modelled in "
+                       "coq/C15/ModelSearch.v and tied to the real object by its own case kind ('S ...' lines); DhtAnnounce and the search "
+                       "transactions that drive it from DhtServer are not modelled",
+                       "projection of the comparison (ROBUSTNESS rule 4): error reply code/text and the choice of the 32-peer get_peers window are "
+                       "not compared between model and implementation; the oracle judges them by clauses (refused vs accepted, every value a stored "
+                       "peer, <= 32 values, every stored peer reachable over random() = 0..127)",
+                       "constants and the 'reply caches of the whole chain are invalidated' flag come from probes compiled against the tree "
+                       "(gen/params_c15.py; regexes only as fallback)",
                        "random(): the harness returns the case's rnd while a datagram is processed and a per-case constant otherwise (transaction ids)",
                        "python oracle props/c15.py (table invariant, token window, announce-then-get) on implementation outputs",
                        "little-endian host for the in-memory layout of SocketAddressCompact.port"]))
